@@ -361,3 +361,40 @@ package client
 //@   ensures result == (conn.badness > 10000000000 ? c : 0)
 //@   ensures c >= 2000000000
 //@ end
+
+// write(line): with flood control on, account the line and sleep for the
+// returned charge before writing; then exactly one WriteString(line+CRLF)
+// and, if that succeeded, exactly one Flush on the socket writer; the log
+// sees the line only in masked form when it starts with PASS.
+//@ pred ioOK(conn *Conn) := connOK(conn) && conn.io != nil && conn.io.Writer != nil
+//@ pred isWrite(e event, w *bufio.Writer, s string) := e == ev("ext", extid("bufio.WriteString"), s, 0, w)
+//@ pred isFlush(e event, w *bufio.Writer) := e == ev("ext", extid("bufio.Flush"), "", 0, w)
+//@ specfn masked(line string) string := (len(line) >= 4 && line[:4] == "PASS") ? "PASS **************" : line
+
+//@ func (*Conn).write
+//@   property C08
+//@   safety C08
+//@   bind t int := call client.(*Conn).rateLimit 1
+//@   requires ioOK(conn)
+//@   requires [C10] !conn.cfg.Flood ==> len(line) <= 4294967296 && 0 <= conn.badness && conn.badness <= 4611686018427387904
+//@   requires [C10] !conn.cfg.Flood ==> 0 <= conn.lastsent && conn.lastsent <= $now && $now <= 4611686018427387904
+//@   modifies conn.badness, conn.lastsent, $now, $tr, $wire, $log
+//@   ensures [C08] result == nil ==> $wirelen == old($wirelen) + 2
+//@      && isWrite($wire[old($wirelen)], conn.io.Writer, line + "\r\n") && isFlush($wire[old($wirelen)+1], conn.io.Writer)
+//@   ensures [C08] result != nil ==> ($wirelen == old($wirelen) + 1 || $wirelen == old($wirelen) + 2)
+//@      && isWrite($wire[old($wirelen)], conn.io.Writer, line + "\r\n")
+//@      && ($wirelen == old($wirelen) + 2 ==> isFlush($wire[old($wirelen)+1], conn.io.Writer))
+//@   ensures [C10] conn.cfg.Flood ==> conn.badness == old(conn.badness) && conn.lastsent == old(conn.lastsent) && $trlen == old($trlen)
+//@   ensures [C10] !conn.cfg.Flood && t == 0 ==> $trlen == old($trlen)
+//@   ensures [C10] !conn.cfg.Flood && t != 0 ==> $trlen == old($trlen) + 2
+//@      && $tr[old($trlen)] == ev("ext", extid("time.After"), "", t) && $tr[old($trlen)+1].kind == kindof("recv")
+//@      && $tr[old($trlen)+1].seq < $wire[old($wirelen)].seq
+//@   ensures [C20] forall k int :: old($loglen) <= k && k < $loglen && $log[k].kind == kindof("logarg") ==> $log[k].str == "" || $log[k].str == masked(line)
+//@ end
+
+// Package-level closure obligations (decided by scanning the SSA of every
+// function of the package, see /verif/vcgen/closure.go).
+//@ closure [C08] sends_on Conn.out in (*Conn).Raw
+//@ closure [C08,C09] field_access Conn.out in (*Conn).Raw, (*Conn).send, (*Conn).drainOut, (*Conn).initialise
+//@ closure [C10] callers (*Conn).rateLimit in (*Conn).write
+//@ closure [C08,C09,C10] callers (*Conn).write in (*Conn).send
